@@ -34,7 +34,8 @@ Lemma emit_fields ps sl :
   /\ b_allow_none (emit ps sl) = ((sl_nullable sl && negb (sl_not_nullable sl)) && negb (dir_eqb (sl_direction sl) DOut))
                                  || (sl_optional sl && dir_eqb (sl_direction sl) DOut)
   /\ b_optional (emit ps sl) = sl_optional sl /\ b_skip (emit ps sl) = sl_skip sl
-  /\ b_transfer (emit ps sl) = tr_str (sl_transfer sl) /\ b_scope (emit ps sl) = sl_scope sl.
+  /\ b_transfer (emit ps sl) = match tr_str (sl_transfer sl) with Some t => Some t | None => if sl_skip sl then Some (s "none") else None end
+  /\ b_scope (emit ps sl) = sl_scope sl.
 Proof.
   intros R. unfold emit. rewrite R. destruct (sl_kind sl); cbn; repeat split; reflexivity.
 Qed.
@@ -47,16 +48,17 @@ Theorem roundtrip_param ps sl :
   /\ rf_nullable r = (sl_nullable sl && negb (sl_not_nullable sl))
   /\ rf_optional r = sl_optional sl
   /\ rf_skip r = sl_skip sl
-  /\ rf_transfer r = match sl_transfer sl with Some TNone => Some 0 | Some TContainer => Some 1 | Some TFull => Some 2 | None => None end.
+  /\ rf_transfer r = match sl_transfer sl with Some TNone => Some 0 | Some TContainer => Some 1 | Some TFull => Some 2
+                                        | None => if sl_skip sl then Some 0 else None end.
 Proof.
   intros R Hca. destruct (emit_fields ps sl R) as [Hd [Hc [Hn [Ha [Ho [Hs [Ht _]]]]]]].
   unfold read_param. rewrite Hd, Hc, Hn, Ha, Ho, Hs, Ht. cbn [rf_in rf_out rf_caller_allocates rf_nullable rf_optional rf_skip rf_transfer].
   rewrite dir_str_out, dir_str_inout.
   generalize (sl_nullable sl && negb (sl_not_nullable sl)) as n. generalize (sl_optional sl) as o.
   destruct (sl_direction sl) eqn:D.
-  - intros [] []; destruct (sl_caller_allocates sl); destruct (sl_transfer sl) as [[]|]; cbn; repeat split; reflexivity.
-  - intros [] []; destruct (sl_caller_allocates sl); destruct (sl_transfer sl) as [[]|]; cbn; repeat split; reflexivity.
-  - rewrite (Hca eq_refl). intros [] []; destruct (sl_transfer sl) as [[]|]; cbn; repeat split; reflexivity.
+  - intros [] []; destruct (sl_caller_allocates sl); destruct (sl_transfer sl) as [[]|]; destruct (sl_skip sl); cbn; repeat split; reflexivity.
+  - intros [] []; destruct (sl_caller_allocates sl); destruct (sl_transfer sl) as [[]|]; destruct (sl_skip sl); cbn; repeat split; reflexivity.
+  - rewrite (Hca eq_refl). intros [] []; destruct (sl_transfer sl) as [[]|]; destruct (sl_skip sl); cbn; repeat split; reflexivity.
 Qed.
 
 (* the reader as found took allow-none on an inout parameter to mean optional: a nullable inout
